@@ -6,6 +6,7 @@ mod probe;
 mod runner;
 mod sqlgen;
 mod util;
+mod audit;
 mod tuple;
 mod wal;
 mod wire;
